@@ -7,7 +7,7 @@ cd /verif
 if ! git -C /repo diff --quiet; then echo "/repo is dirty, refusing"; exit 2; fi
 git -C /repo apply "$patch" || { echo "patch does not apply"; exit 2; }
 EVBAK=$(mktemp -d); cp -r /verif/evidence/. $EVBAK/ 2>/dev/null
-trap 'git -C /repo checkout -- . ; git -C /repo status --short; cp -r $EVBAK/. /verif/evidence/; rm -rf $EVBAK' EXIT
+trap 'git -C /repo apply -R "$patch" 2>/dev/null; git -C /repo checkout -- . ; git -C /repo clean -fdq -- . ; git -C /repo status --short; cp -r $EVBAK/. /verif/evidence/; rm -rf $EVBAK' EXIT
 for p in "$@"; do
   echo "=== $p (${TIER:-quick}) with $patch"
   ./check "$p" "${TIER:-quick}" 2>&1 | grep -E "^VIOLATION|^KNOWN|mismatches=[1-9]|done in" | cut -c1-220
